@@ -3,7 +3,7 @@
 //! complete Debug snapshot of the real builder).
 
 use crate::common::*;
-use crate::engine_in::prog::{self, Op, Prog, RefBuilder, WErr};
+use crate::engine_in::prog::{self, Op, Prog, RefBuilder, RefTree, WErr};
 use crate::engine_sm::{explore, snapshot, Limits, SmModel};
 use crate::real;
 use crate::refimpl::attrs::Kind;
@@ -34,6 +34,8 @@ fn alphabet() -> Vec<Op> {
         Op::Measure,
         Op::CloneFrom(0),
         Op::CloneFrom(1),
+        Op::Fork,
+        Op::Swap,
     ]
 }
 
@@ -58,21 +60,40 @@ fn observe(b: &stun_types::message::MessageBuilder) -> Observed {
 }
 
 /// run a program, judge every step; returns the final observation (for the dedup key)
-fn run_prog(case: &Case, acc: &mut Acc) -> Option<(RefBuilder, Observed)> {
+fn run_prog(case: &Case, acc: &mut Acc) -> Option<(RefTree, Observed, String)> {
     let p = Prog::from_case(case);
-    let mut rb = RefBuilder::new(p.class, p.method, p.tid);
+    let mut tree = RefTree::new(p.class, p.method, p.tid);
     let mut prev = observe(&real::builder(p.class, p.method, p.tid));
-    check_state(case, acc, &rb, &prev, "initial");
-    let mut steps: Vec<(Result<(), WErr>, Observed)> = Vec::new();
-    if prog::execute(&p, |_, r, b| steps.push((r.clone(), observe(b)))).is_err() {
+    let mut sib_debug = String::new();
+    check_state(case, acc, &tree.cur, &prev, "initial");
+    // (the builder is looked at first, then the sibling, then the builder again: what one of them
+    // remembers from being serialised must not show in the other)
+    let mut steps: Vec<(Result<(), WErr>, Observed, Option<Observed>, Observed)> = Vec::new();
+    if prog::execute_tree(&p, |_, r, b, sib| steps.push((r.clone(), observe(b), sib.map(observe), observe(b)))).is_err() {
         acc.outcome("typed value refused by constructor");
         return None;
     }
-    for (i, (r, obs)) in steps.into_iter().enumerate() {
+    for (i, (r, obs, sib_obs, again)) in steps.into_iter().enumerate() {
         acc.evaluations += 1;
         acc.validated += 1;
         let op = &p.ops[i];
-        let accepted = rb.apply(op);
+        let was_swap = matches!(op, Op::Swap | Op::Mutate(_)) || (matches!(op, Op::AppMut(_)));
+        let accepted = tree.apply(op);
+        if was_swap {
+            // what "unchanged" means for a refused operation is relative to the builder now current
+            prev = obs.clone();
+        }
+        sib_debug = sib_obs.as_ref().map(|o| o.debug.clone()).unwrap_or_default();
+        if let (Some(so), Some(srb)) = (&sib_obs, &tree.sib) {
+            if !check_state(case, acc, srb, so, &format!("{} (the sibling kept by FORK)", op.to_text())) {
+                return None;
+            }
+        }
+        if again.bytes != obs.bytes || again.has != obs.has || again.byte_len != obs.byte_len {
+            viol!(acc, P, "changes-when-sibling-is-looked-at", case, format!("after {} the builder serialises differently once its sibling (a clone kept beside it) has been serialised", op.to_text()), fmt_bytes(&obs.bytes), fmt_bytes(&again.bytes));
+            return None;
+        }
+        let rb = &tree.cur;
         match (&r, accepted) {
             (Ok(()), true) => acc.outcome("operation accepted"),
             (Err(_), false) => {
@@ -94,12 +115,12 @@ fn run_prog(case: &Case, acc: &mut Acc) -> Option<(RefBuilder, Observed)> {
                 return None;
             }
         }
-        if !check_state(case, acc, &rb, &obs, &op.to_text()) {
+        if !check_state(case, acc, rb, &obs, &op.to_text()) {
             return None;
         }
         prev = obs;
     }
-    Some((rb, prev))
+    Some((tree, prev, sib_debug))
 }
 
 /// builder's own queries agree with what it serialises; serialisation = reference; parser accepts; integrity valid
@@ -205,7 +226,9 @@ impl SmModel for BuilderModel {
     }
     fn actions(&self, s: &BNode, out: &mut Vec<Op>) {
         if !s.dead {
-            out.extend(if self.which == 0 { alphabet() } else { alphabet_lt() });
+            // (SWAP without a sibling does nothing)
+            let forked = s.ops.iter().any(|o| matches!(o, Op::Fork));
+            out.extend((if self.which == 0 { alphabet() } else { alphabet_lt() }).into_iter().filter(|o| forked || !matches!(o, Op::Swap)));
         }
     }
     fn step(&self, s: &BNode, a: &Op, acc: &mut Acc) -> Option<BNode> {
@@ -225,8 +248,8 @@ impl SmModel for BuilderModel {
         let a0 = std::mem::take(acc);
         *acc = a0.merge(l);
         match r {
-            Some((rb, obs)) => {
-                let key = snapshot::hash128(&format!("{:?}#{}", rb, obs.debug));
+            Some((rb, obs, sib_debug)) => {
+                let key = snapshot::hash128(&format!("{:?}#{}#{}", rb, obs.debug, sib_debug));
                 Some(BNode { ops, key, dead: false })
             }
             None => Some(BNode { key: snapshot::hash128(&format!("dead{:?}", ops)), ops, dead: true }),
@@ -299,7 +322,7 @@ pub fn run(ctx: &Ctx) -> Report {
         states,
         transitions,
         exhaustive: true,
-        rule: "all sequences up to the depth over {add typed SOFTWARE/USERNAME/PRIORITY/XOR-MAPPED-ADDRESS, add raw 0xff00/0x7f00/SOFTWARE's code, add SHA-1 integrity, add SHA-256 integrity, add fingerprint, into_owned, clone} x {request, error}, and to depth 6 (7) over the attributes of the long-term credential flow {USERNAME, USERHASH, REALM, NONCE, PASSWORD-ALGORITHM typed SHA-256 / raw MD5, PASSWORD-ALGORITHMS, integrity under long- and short-term credentials, fingerprint} x {request, success}; states deduplicated on reference builder state + the builder's complete Debug snapshot; plus, for every 16-bit type code x, two fixed programs that add x as a raw attribute before / after typed attributes, add x ^ 0x40, seal in every way and try x again; distinct_nontrivial = unique states + sweep programs".into(),
+        rule: "all sequences up to the depth over {add typed SOFTWARE/USERNAME/PRIORITY/XOR-MAPPED-ADDRESS, add raw 0xff00/0x7f00/SOFTWARE's code, add SHA-1 integrity, add SHA-256 integrity, add fingerprint, into_owned, clone, measure, clone_from, fork (keep a sibling clone alive; both are looked at after every step), swap (carry on with the sibling)} x {request, error}, and to depth 6 (7) over the attributes of the long-term credential flow {USERNAME, USERHASH, REALM, NONCE, PASSWORD-ALGORITHM typed SHA-256 / raw MD5, PASSWORD-ALGORITHMS, integrity under long- and short-term credentials, fingerprint} x {request, success}; states deduplicated on reference builder state + the builder's complete Debug snapshot; plus, for every 16-bit type code x, two fixed programs that add x as a raw attribute before / after typed attributes, add x ^ 0x40, seal in every way and try x again; distinct_nontrivial = unique states + sweep programs".into(),
         bounds: json!({"depth": depth, "alphabet": 12, "levels": levels}),
         assumptions: vec!["a snapshot difference after a refused operation is an evidence note only (the successor is a new state whose futures are explored)".into()],
         caps_hit: caps,
